@@ -272,7 +272,8 @@ def _prep_face_edges(cb, p):
 
 Row(
     "Face:edges", "wrong-count",
-    {"3-edges": "reject", "5-edges": "reject", "4-edges": "accept", "2-edges": "reject", "6-edges": "reject"},
+    {"3-edges": "reject", "5-edges": "reject", "4-edges": "accept", "2-edges": "reject", "6-edges": "reject", "0-edges": "reject",
+     "1-edges": "reject"},
     _gen_face_edges, lambda p: "accept" if len(p["edges"]) == 4 else "reject", _prep_face_edges,
 )
 
